@@ -87,6 +87,12 @@ def step (s : NState) : List String → NState × String
       let (s', ok) := submit s tx
       (s', if ok then "ok" else "err")
     | _ => (s, "bad-op")
+  | ["reorgto", id] =>
+    match hexNat? id with
+    | some id =>
+      let (s', ok) := reorgTo s id
+      (s', s!"{if ok then "ok" else "err"} {s'.tip.height} {natToHex s'.tip.id}")
+    | none => (s, "bad-op")
   | ["irr", l, d, rs] =>
     match nat? l, nat? d, nat? rs with
     | some l, some d, some rs => ({ s with lih := l, dpos := d != 0, revertStart := rs }, "ok")
